@@ -206,7 +206,7 @@ def run_check(prop, tier, seed, replay, t0):
     os.makedirs(VERIF + "/out/replays", exist_ok=True)
     seen = set()
     for v, sp, bname in all_viol:
-        dst = "%s/out/replays/%s_%s_%s_h%s.ndjson" % (VERIF, prop, tier, bname, v.get("hist"))
+        dst = "%s/out/replays/%s_%s_%s_%s" % (VERIF, prop, tier, bname, os.path.basename(sp))
         if dst not in seen:
             shutil.copy(sp, dst)
             seen.add(dst)
